@@ -815,6 +815,16 @@ func (s *fileState) call(t *ast.CallExpr) {
 			c.seams.AllocSites++
 			s.wrap(t, simrtName+".Reg(", ")", 2)
 		}
+		// R9: uintptr(unsafe.Pointer(x)) - the numeric value (and so the order) of addresses of distinct
+		// allocations is unspecified: the simulator picks it
+		if tv, ok := s.info.Types[t.Fun]; ok && tv.IsType() && len(t.Args) == 1 {
+			if b, ok := tv.Type.Underlying().(*types.Basic); ok && b.Kind() == types.Uintptr {
+				if ab, ok := s.typeOf(t.Args[0]).Underlying().(*types.Basic); ok && ab.Kind() == types.UnsafePointer {
+					s.replace(t.Fun, simrtName+".Addr")
+					c.seams.Clock = append(c.seams.Clock, PosNote{Kind: "uintptr(unsafe.Pointer)", Pos: c.pos(t.Pos()), Func: s.curFunc()})
+				}
+			}
+		}
 		return
 	}
 	sel, ok := unparen(t.Fun).(*ast.SelectorExpr)
